@@ -18,7 +18,11 @@ argv literals) + correspondence of the model against
                    rename, with the modification time moving or PINNED (same-size edits included), also seen by a
                    new object over the same path: over the stubs (exact traces), the real libraries and the real ssh
                    binary against recording servers behind a switchable address, and the stand-in ssh;
-                   model: run_history / sys_history / run_memo (the content at the moment of an open decides).
+                   model: run_history / sys_history / run_memo (the content at the moment of an open decides),
+  marker-lookup    (c10_marker.py) known_hosts files with @revoked / @cert-authority lines, trailing comments, blank and
+                   comment lines: SSHKnownHosts.lookup vs lookup_lines reader_as_written; the same files run through
+                   hostkey-order (all three transports) and hostkey-loopback (real paramiko / asyncssh) — a marker line is
+                   never a trust entry.
 The property itself is decided on the implementation's observations by an oracle that does not
 use the model (independent known_hosts reader; Python getopt with OpenSSH's option string)."""
 import asyncio
@@ -159,7 +163,8 @@ def spec_entry_keys(text, host, port):
     """Independent reading of a known_hosts file (sshd(8), SSH_KNOWN_HOSTS FILE FORMAT): the set of
     base64 keys on lines that name `host` (plain or in a comma list, hashed, `[host]:port`, or by
     a * ? pattern).  Deliberately generous: anything a reasonable client could take as an entry for
-    the host is in the set, so `key not in set` really means missing-or-different."""
+    the host is in the set (text after the key is a comment), so `key not in set` really means missing-or-different.
+    Lines with a marker (@revoked, @cert-authority, anything starting with @) are NOT entries."""
     import re
 
     def wild(pat, name):      # only * and ? are wildcards in known_hosts patterns ([ ] are literal: "[host]:port")
@@ -174,9 +179,9 @@ def spec_entry_keys(text, host, port):
             continue
         f = line.split()
         if f[0].startswith("@"):
-            if f[0] != "@cert-authority" and f[0] != "@revoked":
-                continue
-            f = f[1:]
+            # a MARKER line is never a plain trust entry: an @revoked key is never accepted, an @cert-authority key only signs
+            # host certificates (which scrapli never asks for) — whatever host the line names, it contributes nothing
+            continue
         if len(f) < 3:
             continue
         hit = False
@@ -848,8 +853,58 @@ def run(rep):
             why = "asyncssh was handed known_hosts=%r, the resolved file is %r" % (ckw.get("known_hosts"), khfile)
         if why:
             order_fail.append((len(order_cases) - 1, why))
+    # marker lines (@revoked / @cert-authority), trailing comments, blank and comment lines (c10_marker): every kind of file in
+    # every entry form over all three transports; the library verdict the stub asyncssh acts out is the real matcher's for the file
+    from . import c10_marker as MK
+    import time as _tm
+    t_m0 = _tm.time()
+    mark_terms, mark_cases = [], []
+    mkeys = {k: keys.pub[k] for k in ("A", "B", "R")}
+    for (kind, fmt) in MK.plan_files(rng, thorough):
+        lay = MK.gen_layout(rng, kind, "A", ["B", "R"])
+        text = MK.render(sys.modules[__name__], rng, lay, fmt, 22, mkeys, "A")
+        khfile = write_kh(text)
+        entry = scrapli_entry(khfile)
+        key_bad = kA not in spec_entry_keys(text, HOST, 22)
+        first, ls = MK.coq_lines(lay, fmt, mkeys)
+        mark_cases.append({"suite": "marker-lookup", "kind": kind, "format": fmt, "known_hosts": text, "layout": lay,
+                           "scrapli_lookup": entry, "key_missing_or_different": key_bad})
+        # the lookup raising is no lookup result: a term that never compares equal (reported as a disagreement)
+        mark_terms.append("(%s, %s, %s)" % (first, ls, "(Some [0])" if isinstance(entry, str) and entry.startswith("EXC:") else MK.coq_opt(entry)))
+        d = dist["order"]
+        d["marker_" + kind] = d.get("marker_" + kind, 0) + 1
+        d["marker_key_bad" if key_bad else "marker_key_good"] = d.get("marker_key_bad" if key_bad else "marker_key_good", 0) + 1
+        libv = lib_verdict(khfile, HOST, 22, keys.pub["A"][0], kA) or "Untrusted"
+        for lib in LIBS:
+            sc = {"strict": True, "entry": entry, "skey": kA, "libv": libv if lib == "Asyncssh" else "Trusted", "handshake_ok": True,
+                  "has_key": rng.random() < 0.5, "has_pw": True, "has_user": True, "key_ok": rng.random() < 0.5, "pw_ok": rng.random() < 0.7,
+                  "kbd_ok": False}
+            trace, ckw = stubs.run(lib, sc, khfile)
+            rep.case(("order-marker", lib, kind, fmt, sc["has_key"], sc["key_ok"], sc["pw_ok"], text), nontrivial=True)
+            d[lib] = d.get(lib, 0) + 1
+            d["end_" + EVN.get(trace[-1], "?")] = d.get("end_" + EVN.get(trace[-1], "?"), 0) + 1
+            order_cases.append({"suite": "hostkey-order", "lib": lib, "scenario": sc, "known_hosts": text, "format": fmt,
+                                "relation": "marker:" + kind, "trace": [EVN.get(e, e) for e in trace]})
+            if isinstance(entry, str) and entry.startswith("EXC:"):
+                order_terms.append("(%s, %s, %s)" % (lib, coq_scen(dict(sc, entry=None)), coq_bytes([0])))   # never equal: reported
+            else:
+                order_terms.append("(%s, %s, %s)" % (lib, coq_scen(sc), coq_bytes(trace)))
+            why = oracle_trace(sc, trace, key_bad)
+            if why:
+                order_fail.append((len(order_cases) - 1, "%s [known_hosts kind %s, %s entries]" % (why, kind, fmt)))
     stubs.restore()
+    bad_mark, log_mark = common.eval_cases(rep.workdir, "cases_c10_marker", MK.HEADER_MARK, mark_terms, "chk", shard=40)
+    mark_wall = {"stub_files_and_model_evaluation": round(_tm.time() - t_m0, 1)}
+    rep.coverage["correspondence_marker_lookup"] = {
+        "suite": "marker-lookup", "files": len(mark_cases), "compared_with_model": len(mark_terms), "wall_s": mark_wall,
+        "model_disagreements": None if bad_mark is None else len(bad_mark),
+        "meaning": "SSHKnownHosts(file).lookup(host) on files with @revoked / @cert-authority lines, trailing comments, blank and comment "
+                   "lines vs lookup_lines reader_as_written over the generator's line list"}
     rep.sample({k: order_cases[0][k] for k in ("lib", "scenario", "format", "trace")})
+    for c in order_cases:
+        if c["relation"] == "marker:other_then_revoked" and c["lib"] == "Paramiko":
+            rep.sample({k: c[k] for k in ("lib", "relation", "known_hosts", "trace")})
+            break
     for c in order_cases:
         if c["scenario"]["strict"] and c["relation"] == "other" and c["scenario"]["handshake_ok"]:
             rep.sample({k: c[k] for k in ("lib", "scenario", "known_hosts", "trace")})
@@ -1005,7 +1060,15 @@ def run(rep):
         for _ in range(120 if thorough else 24):
             one_loopback(rng.choice(["Asyncssh", "Paramiko"]), rng.choice(["A", "R"]), rng.random() < 0.7,
                          rng.choice([None, True, True, False]), None, None, rng.choice(["password", "key", "both"]), malformed=True)
-        # host aliases: the name dialled is not the name under which the file carries the server's key (c10_alias)
+        # marker lines, trailing comments, blank / comment lines (c10_marker) against the real libraries
+        t_m1 = _tm.time()
+        for (lib, kind, fmt, sk, method, strict) in MK.plan_loopback(rng, thorough):
+            port = servers[(sk, True)][0]
+            lay = MK.gen_layout(rng, kind, sk, [k for k in keys.pub if k != sk])
+            one_loopback(lib, sk, True, strict, "marker:" + kind, fmt, method,
+                         text=MK.render(sys.modules[__name__], rng, lay, fmt, port, keys.pub, sk))
+            dist["loopback"]["marker"] = dist["loopback"].get("marker", 0) + 1
+        mark_wall["loopback"] = round(_tm.time() - t_m1, 1)
         for (lib, dial, rel, nameform, carrier, cform, method, sk, strict) in AL.plan(rng, alias_names, thorough):
             lay = AL.gen_layout(rng, keys.pub, sk, dial, rel, nameform, carrier, cform, alias_names)
             one_loopback(lib, sk, True, strict, rel, nameform, method, dial=dial, alias=(lay, nameform, carrier, cform))
@@ -1113,6 +1176,9 @@ def run(rep):
                 "with close() between the opens (or a new object per open over one known_hosts path), + random histories over the stubs; "
                 "aliases: (lib, name dialled, what the file lists for that name, where else the server's key is listed: peer address plain / comma / "
                 "hashed / [addr]:port / hashed / pattern / CIDR, another alias, unrelated name, method, strict); "
+                "marker files: (kind of file: presented key @revoked / @cert-authority for the host, for another host, for *, plain entry of another key "
+                "before / after, rotation with the right key plain, trailing comments; entry form plain / comma / hashed / [host]:port; blank and comment "
+                "lines; transport; credentials) — every kind x form over the stubs, every kind x real library on loopback; "
                 "non-trivial = strict mode in effect (and the handshake succeeds); distinct = the full scenario tuple")
 
     # ---------------------------------------------------------------------------------------------
@@ -1142,7 +1208,8 @@ def run(rep):
     for why, case in drv_fail[:4]:
         rep.violation("driver-level: " + why, {"suite": "driver-level", "case": case, "rerun": "./check C10 --replay <this file>"})
 
-    for name, bad, lg, cases, dom in (("hostkey-order", bad_order, log, order_cases, None),
+    for name, bad, lg, cases, dom in (("marker-lookup", bad_mark, log_mark, mark_cases, None),
+                                      ("hostkey-order", bad_order, log, order_cases, None),
                                       ("hostkey-loopback", bad_loop, log2, loop_cases, loop_domain),
                                       ("system-argv", bad_argv, log3, argv_cases, None),
                                       ("hostkey-history", bad_hist, log4, hist["cases"], hist["term_case"])):
@@ -1478,7 +1545,22 @@ MANIFEST = {
             "the entry FOR THE DIALLED NAME (generous: lower-cased too). Listed finding c10-asyncssh-peer-address-entry (replayed on every run): another "
             "key under the name + the server's key under the peer address => asyncssh trusts the union, the credentials go out before scrapli's own "
             "comparison raises; in Coq the unconditional statement for asyncssh is refuted by that witness and the hypothesis `agrees` of the "
-            "partial is exactly the complement of that region.",
+            "partial is exactly the complement of that region. "
+            "MARKER lines (@revoked, @cert-authority), trailing comments, blank and comment lines (c10_marker.py): the specification (sshd(8)) — a line "
+            "with a marker is never a plain trust entry, so in strict mode no credential leaves unless a NON-marker line naming the host carries the "
+            "presented key. Coq (HostKey.v khline / reader / lookup_lines): for EVERY reader that does not strip markers, first- or last-match, a key "
+            "carried only by marker lines for the host, by lines of other hosts or by nothing is never the lookup result "
+            "(C10_marker_lines_never_the_entry), hence nothing is offered and the attempt ends in ScrapliAuthenticationFailed for all three transports "
+            "(C10_marker_protects_credentials); refuted by a vm_compute witness ('@revoked host K', the server presents K) for a reader that strips "
+            "the marker and files the rest as an entry, with or without tolerating trailing comments (C10_marker_blind_reader_refuted). The code as "
+            "written is reader_as_written (three-field lines only), tied by the marker-lookup correspondence: SSHKnownHosts(file).lookup(host) on "
+            "every generated marker file equals lookup_lines reader_as_written over the generator's line list. Observed: 19 kinds of file — the "
+            "presented key @revoked / @cert-authority for the host (alone, both, with a plain entry of ANOTHER key before / after), revoked under "
+            "another host or under *, key rotation seen from the new key (plain right key + @revoked / @cert-authority old key: must open), trailing "
+            "comments on plain and marker lines, blank / whitespace / comment / commented-out-entry lines around — in plain, comma-listed, |1| hashed "
+            "and [host]:port form, over the stub libraries for paramiko, ssh2 and asyncssh (exact traces; the verdict the stub asyncssh acts out is the "
+            "real matcher's for the file) and over the real paramiko and asyncssh clients against the recording servers (ed25519 and RSA host keys, "
+            "password / key / both). The oracle's reader (spec_entry_keys) ignores every line that starts with @.",
     "note": "Section variables / hypotheses: `lookup` (SSHKnownHosts parsing and lookup, owned by KnownHosts.v / C16) and `lib_verdict` (asyncssh's own "
             "known_hosts matcher) with hypothesis lib_agrees: when scrapli's lookup finds an entry, asyncssh trusts at most that entry's key — "
             "tested on every generated single-entry file, not proved; for two-line entries it is false and the property is then only observed. "
@@ -1509,7 +1591,14 @@ MANIFEST = {
             "listed with another key in a port-less form, peer address listed with the server's key), where lib_agrees is false (counted in "
             "coverage.correspondence_loopback.aliases). Numeric spellings of the address (127.1, 2130706433) are not used as aliases: ssh(1) rewrites "
             "them to the canonical address before the lookup, so they are the address, not another name. Which names exist depends on the machine's "
-            "/etc/hosts (at least one is required, else the check reports the alias scenarios as not run).",
+            "/etc/hosts (at least one is required, else the check reports the alias scenarios as not run). "
+            "Marker files: the model's input is the generator's own record of each line (marker, trailing comment, names-the-host, key) — the rendering "
+            "of that record to text is trusted, blank / comment lines are not in the record, a `[host]:port` line counts as NOT naming the host for "
+            "SSHKnownHosts.lookup(host) (it is another id; the oracle's generous reader does count it), and all lines for the target in one file use one "
+            "entry form, so that the pick among several (literal ids: the last line; |1| ids: the first) is uniform; host-name matching itself stays "
+            "C16's (KnownHosts.v). A key that is BOTH on a plain line and on an @revoked line for the host (OpenSSH refuses it, scrapli's reader never "
+            "sees @revoked lines) is not generated and not covered by the oracle, which only demands the necessary condition above; the histories "
+            "(c10_hist) and the real-ssh rows do not use marker files.",
     "technique": "Coq proofs by case analysis over an event-trace model + generated-definition obligations + vm_compute correspondence against stubbed "
                  "and real (loopback) SSH libraries with recording servers",
 }
